@@ -1135,6 +1135,7 @@ fn fn_edits(
 	edits: &mut Vec<Edit>,
 	in_trait_impl: bool,
 	stub: Option<String>,
+	qual: &str,
 ) {
 	let mark_base = ctx.out.marks.len();
 	let mut v = FnVisitor {
@@ -1221,7 +1222,7 @@ fn fn_edits(
 		die(&format!("{}: requires on a trait impl method is not allowed", name));
 	}
 	let mut ens = cfg.ensures.clone();
-	if ctx.canary && !cfg.no_canary && stub.is_none() && ctx.canary_fns.as_ref().map(|v| v.iter().any(|x| x == name)).unwrap_or(true) {
+	if ctx.canary && !cfg.no_canary && stub.is_none() && ctx.canary_fns.as_ref().map(|v| v.iter().any(|x| x == name || x == qual)).unwrap_or(true) {
 		ens.push(Clause::Full {
 			label: Some("__canary".to_string()),
 			props: None,
@@ -1531,7 +1532,7 @@ fn main() {
 					let a = f.sig.constness.map(|c| br(c.span()).0).or(f.sig.asyncness.map(|c| br(c.span()).0)).unwrap_or(br(f.sig.fn_token.span()).0);
 					edits.push(Edit { start: a, end: a, parts: vec![Part::Text("pub ".into())], rule: "A5".into(), seq: usize::MAX / 4 });
 				}
-				fn_edits(&mut ctx, src, &name, &f.attrs, &f.sig, &f.block, &fc, &it.replace, whole, &mut edits, false, stub);
+				fn_edits(&mut ctx, src, &name, &f.attrs, &f.sig, &f.block, &fc, &it.replace, whole, &mut edits, false, stub, &name);
 				ranges.push(whole);
 			}
 			Found::Impl(im, sel) => {
@@ -1573,7 +1574,12 @@ fn main() {
 								let a = f.sig.constness.map(|c| br(c.span()).0).or(f.sig.asyncness.map(|c| br(c.span()).0)).unwrap_or(br(f.sig.fn_token.span()).0);
 								edits.push(Edit { start: a, end: a, parts: vec![Part::Text("pub ".into())], rule: "A5".into(), seq: usize::MAX / 4 });
 							}
-							fn_edits(&mut ctx, src, &name, &f.attrs, &f.sig, &f.block, &fc, &it.replace, w, &mut edits, im.trait_.is_some() && !it.as_inherent, stub);
+							let self_ty = match &*im.self_ty {
+								syn::Type::Path(tp) => tp.path.segments.last().map(|s| s.ident.to_string()).unwrap_or_default(),
+								_ => String::new(),
+							};
+							let qual = format!("{}::{}", self_ty, name);
+							fn_edits(&mut ctx, src, &name, &f.attrs, &f.sig, &f.block, &fc, &it.replace, w, &mut edits, im.trait_.is_some() && !it.as_inherent, stub, &qual);
 							ranges.push(w);
 						}
 						syn::ImplItem::Type(t) if sel.is_none() => ranges.push(br(t.span())),
